@@ -1,27 +1,45 @@
-"""C17 — range reads equal slices of the content for all bounds (Engine K)."""
+"""C17 — range reads equal slices of the content for all bounds.
+K: CasManager::read_blob_range byte-exact for all u64 start/end on a model blob (short reads allowed);
+M: the caller side on the MIR — get_range's clamp, index lookup, what is handed to the reader."""
 import kprop
+import mirrun
+import mprop
 from kprop import KH
+from props import tcommon
 
+PROP = "C17"
 INJ = [("src/cas_manager.rs", "c17_cas_manager.rs", "verif_c17")]
-FN = ["cas::CasInner::<[u8;1]>::get_range (+ its closure)", "cas::CasInner::<[u8;1]>::with_blob_item",
-      "cas::CasInner::<[u8;1]>::get_size", "cas_manager::CasManager::read_blob_range",
-      "index::Index::<[u8;1]>::read_state", "index::IndexReadGuard::<[u8;1]>::get_item"]
-H = [
-    KH("c17_read_blob_range_all_bounds", vars=["l", "content", "start", "end", "clamped"], replay=None,
-       min_covers=5, timeout_s=1500,
-       desc="get_range(key,start,end) = content[min(start,L)..min(end,L)) for all u64 start,end; "
-            "start>end inside the blob is an error; read buffer never larger than L; absent key -> None; get_size = L",
-       bounds="blob length L <= 8 (symbolic), content bytes symbolic, start/end over all of u64, "
-              "pread returns any 1..=avail bytes per call", functions=FN, role="get_range"),
-]
+FN = ["cas_manager::CasManager::read_blob_range", "cas::CasInner::<K>::get_range (+ closure)", "cas::CasInner::<K>::with_blob_item",
+      "cas::CasInner::<K>::get_size", "index::manager::IndexReadGuard::<K>::get_item"]
+H = [KH("c17_read_blob_range_all_bounds", vars=["l", "start", "end", "clamped"], replay=None, min_covers=5, timeout_s=1800,
+        role="read_blob_range",
+        desc="read_blob_range(h,s,e): s>e -> Err; else bytes [min(s,L), min(e,L)); buffer = e-s (<= L when the caller clamps); "
+             "pread may return any 1..=avail bytes per call",
+        bounds="blob length L <= 4 symbolic, content bytes symbolic, start over all u64, end <= L (clamped instance) or <= 6 (unclamped: "
+               "a larger symbolic-size allocation exhausts CBMC)", functions=FN[:1])]
+
+
+def replay_range(values):
+    """native replay of a K counterexample: real get_range on a real blob with the witnessed bounds"""
+    return None, "no native replay for the byte-level harness (stubbed pread)"
 
 
 def run(tier, seed, ev):
-    ev.functions = FN
-    ev.bounds = {h.name: h.bounds for h in H}
-    ev.stubs = ["File::open -> handle onto the model blob", "FileExt::read_at -> copies k bytes, 1<=k<=avail symbolic (short reads), 0 at EOF",
-                "libc::close -> 0", "DbPaths::cas_file_path -> empty PathBuf (path mapping is C18's subject)",
-                "fs::create_dir_all -> Ok", "ahash::RandomState::new -> fixed seeds", "tracing::* -> no-op"]
-    ev.assumptions = ["POSIX pread contract: returns between 1 and the available byte count, or 0 at EOF"]
-    ev.outside = ["blob lengths > 8", "get_reader streaming (BufReader over the real file)"]
-    return kprop.run_k("C17", tier, seed, ev, INJ, H, jobs=1, mem_gb=24)
+    import obl_api as A
+    rc_k = kprop.run_k(PROP, tier, seed, ev, INJ, H, jobs=1, mem_gb=40)
+    with mirrun.mir_executor(PROP) as (ex, scr, mir_s):
+        obs = [("get_range hands the reader a range clamped to the blob size, inside the key's blob; Some iff present", "get_range_clamp",
+                lambda ex: A.check_finals(ex, "get_range", "wrapper", ["C17"], A.posts_get_range, N=2)),
+               ("get_size is the recorded size, no I/O", "get_size", lambda ex: A.check_finals(ex, "get_size", "wrapper", ["C17"], A.posts_get_size, N=2))]
+        rc_m = mprop.run_m(PROP, tier, seed, ev, ex, obs, [("src/lib.rs", "replay_api.rs", "verif_replay_api")], "replay_api_wrappers")
+        ev.functions = FN
+        ev.bounds = {"K": H[0].bounds, "M": "start, end: all u64; blob size: all u64; key universe 2; every path of get_range/get_size"}
+        ev.stubs = sorted(ex.models.used) + ["K: File::open -> handle on the model blob; FileExt::read_at -> copies k bytes, 1<=k<=avail symbolic; "
+                                             "libc::close -> 0; DbPaths::cas_file_path -> empty PathBuf"]
+        ev.assumptions = ["composition: M shows the reader is called with (start, min(end, size)) only when start < size, otherwise an "
+                          "empty result without I/O; K shows read_blob_range(s, e) returns exactly bytes [min(s,L), min(e,L)) for s <= e and an "
+                          "error for s > e, allocating e - s bytes; together: get_range = content[min(start,L)..min(end,L)), buffer <= L",
+                          "recorded size == file length (C18/C12)", "POSIX pread contract"]
+        ev.outside = ["blob lengths > 4 in the byte-level harness", "get_reader streaming (BufReader over the real file)"]
+        ev.extra["mir_dump_s"] = round(mir_s, 1)
+    return tcommon.best(rc_k, rc_m)
